@@ -23,7 +23,9 @@ RULE = ("resilient thread-mode runs (run_local_thread_dcop(replication='dist_ucs
         "computations(); oracle: status reported exactly once per event; status OK <=> every original computation is in the "
         "directory on exactly one surviving agent, really hosted there and nowhere else, and each re-hosted computation "
         "landed on an agent that held its replica; when every orphaned computation had a surviving replica the status must "
-        "be OK; non-trivial = >= 1 orphaned computation re-hosted; distinct by hash(instance, mapping, k, departing set)")
+        "be OK; plus the premise made checkable under the deterministic scheduler: replication at level k with ample capacity "
+        "everywhere gives every computation min(k, other agents) replicas (160 / 4000 generated deployments); "
+        "non-trivial = >= 1 orphaned computation re-hosted; distinct by hash(instance, mapping, k, departing set)")
 
 
 def gen_instance(rng):
@@ -72,6 +74,7 @@ def run_removal(inst, leaving, seed, lines=False):
     out["mapping"] = mapping
     comps = sorted(n.name for n in cg.nodes)
     out["computations"] = comps
+    out["neighbors"] = {n.name: sorted(n.neighbors) for n in cg.nodes}
     dist = Distribution({a: list(cs) for a, cs in mapping.items()})
     per = threaded.Perturb(seed, p_sleep=0.15, lines=lines)
     Messaging = comm_mod.Messaging
@@ -278,6 +281,31 @@ def analyse(inst, r):
     holders = {c: sorted(a for a, reps in replicas_before.items() if c in reps) for c in comps}
     S["in_scope"] = all(any(h not in leaving for h in holders[c]) for c in orphaned)
     S["replication_level_reached"] = all(len(holders[c]) >= inst["k"] for c in comps)
+    # level the runtime could reach: replication spreads along agents hosting neighbouring computations, so the
+    # candidates of a computation are the other agents of its owner's connected component in that agent graph
+    nbc = r.get("neighbors") or {}
+    adj = {a: set() for a in mapping}
+    for c, ns in nbc.items():
+        for n in ns:
+            if n in owner and owner[n] != owner[c]:
+                adj[owner[c]].add(owner[n])
+                adj[owner[n]].add(owner[c])
+    comp_of = {}
+    for a in mapping:
+        if a in comp_of:
+            continue
+        stack, seen = [a], {a}
+        while stack:
+            x = stack.pop()
+            for y in adj[x]:
+                if y not in seen:
+                    seen.add(y)
+                    stack.append(y)
+        for x in seen:
+            comp_of[x] = seen
+    short = {c: (len(holders[c]), min(inst["k"], len(comp_of[owner[c]]) - 1)) for c in comps
+             if len(holders[c]) < min(inst["k"], len(comp_of[owner[c]]) - 1)}
+    S["level_short_of_reachable"] = short
     if len(reports) == 0:
         if not S["in_scope"]:
             # some orphaned computation had no surviving replica: outside the property's premise; nothing was reported OK
@@ -319,9 +347,52 @@ def analyse(inst, r):
     return P, S
 
 
+def level_problems(seed, i):
+    """the premise of the property, made checkable: replication asked at level k with ample capacity everywhere reaches
+    min(k, number of other agents) replicas for every computation (deterministic scheduler over the real UCSReplication /
+    Discovery / Directory computations, messages passed by reference as between in-process agents)"""
+    from pv.checks import c25
+
+    rng = common.rng_for(seed, "C27-level", i)
+    dep = c25.gen_deployment(rng)
+    for a in dep["agents"]:
+        own = sum(c["footprint"] for c in dep["comps"] if c["agent"] == a)
+        dep["agent_defs"][a]["capacity"] = own + 1000
+    w, status = c25.run_dep(dep, (seed * 1000003 + i) & 0x7FFFFFFF)
+    W = {"deployment": dep, "index": i}
+    if status != "quiescent":
+        return [], W, 0  # termination and handler exceptions are C25's subject
+    final = {}
+    for a, reps in w.done.items():
+        for c, h in reps[-1].items():
+            final[c] = h
+    want = min(dep["k"], len(dep["agents"]) - 1)
+    P = []
+    for c in dep["comps"]:
+        got = len(final.get(c["name"], []))
+        if got != want:
+            P.append(("replication-level-not-reached-with-ample-capacity",
+                      "k=%d, %d agents with ample capacity: %s (owner %s) is replicated on %r, expected %d replicas" % (
+                          dep["k"], len(dep["agents"]), c["name"], c["agent"], final.get(c["name"]), want)))
+            break
+    return P, W, len(dep["comps"])
+
+
 def worker(job):
     R = common.WorkerResult()
     seed = job["seed"]
+    for i in job.get("level_items", []):
+        try:
+            P, W, n = level_problems(seed, i)
+        except Exception:
+            import traceback
+
+            R.violation("harness:exception", traceback.format_exc()[-700:], {"level_index": i})
+            continue
+        R.case(common.stable_hash(W), False, sample=None)
+        R.count("replication_levels_checked_with_ample_capacity", n)
+        for k, m in P:
+            R.violation(k, m, W)
     for item in job["items"]:
         idx, leaving = item["instance"], item["leaving"]
         rng = common.rng_for(seed, "C27", idx)
@@ -346,6 +417,7 @@ def worker(job):
         R.count("sleeps_injected", r.get("injected", 0))
         R.bump("scope", "surviving-replica-for-every-orphan" if S.get("in_scope") else "some-orphan-without-surviving-replica")
         R.bump("replication", "level-k-reached" if S.get("replication_level_reached") else "fewer-than-k-replicas-placed")
+        R.bump("replication_vs_reachable_agents", "below: %r" % (S.get("level_short_of_reachable"),) if S.get("level_short_of_reachable") else "min(k, reachable agents) replicas for every computation")
         R.bump("reported_status", str(S.get("status")))
         R.bump("placement_at_report_time", "complete" if S.get("placement_complete_at_report") else "incomplete-or-unknown")
         R.bump("departing_set_size", str(len(leaving)))
@@ -387,8 +459,9 @@ def main(chk, tier, seed):
                        "the state is observed 1.2 s after the repair report (resume messages drained); harness watchdog firing is inconclusive"]
     items, exhaustive = plan(tier, seed)
     nproc = 16
-    jobs = [{"seed": seed, "items": items[i::nproc], "lines": False} for i in range(nproc)]
-    jobs = [j for j in jobs if j["items"]]
+    nlevel = 160 if tier == "quick" else 4000
+    jobs = [{"seed": seed, "items": items[i::nproc], "lines": False, "level_items": list(range(nlevel))[i::nproc]} for i in range(nproc)]
+    jobs = [j for j in jobs if j["items"] or j["level_items"]]
     results = common.run_workers("c27", jobs, nproc=nproc, timeout=600 if tier == "quick" else 3000)
     common.merge_results(chk, results)
     chk.extra["departing_sets_enumerated_per_instance"] = "all subsets of size 1..k" if exhaustive else "seeded sample of 2 subsets per instance"
@@ -397,6 +470,14 @@ def main(chk, tier, seed):
 
 def replay(payload):
     w = payload["witness"]
+    if "deployment" in w:
+        from pv.checks import c25
+
+        wd, status = c25.run_dep(w["deployment"], (payload["seed"] * 1000003 + w["index"]) & 0x7FFFFFFF)
+        print("replay: replication of the recorded deployment ended %s; hosts reported: %r" % (status, {a: r[-1] for a, r in wd.done.items()}))
+        print(payload["what"])
+        print("VIOLATION property=C27 replay=(recorded witness)")
+        return 1
     for attempt in range(3):
         r = run_removal(w["instance"], w["leaving"], w["seed"])
         P, S = analyse(w["instance"], r)
